@@ -329,7 +329,7 @@ def cross_section(rnd, n, prefix="x"):
     return [session(rnd, i, prefix=prefix, n_calls=3) for i in range(n)]
 
 
-def redownload_sessions(rnd, n, prefix="rd"):
+def redownload_sessions(rnd, n, prefix="rd", failing=False):
     """A new program is downloaded to the controller between two uploads of the same driver object (or the driver is closed
     and re-opened): same tag names, redefined structure behind the same template id, other instance ids."""
     from ..projgen import redownload
@@ -339,7 +339,7 @@ def redownload_sessions(rnd, n, prefix="rd"):
         fw = [21, 32, 20, 19][i % 4]                      # instance-id addressing (>= 21) in half of the sessions
         micro = False
         ident = S.identity(fw=fw, name="1756-L83E/B", serial=rnd.getrandbits(32))
-        proj, mem, b = gen_project(rnd, n_tags=4, programs=rnd.choice([0, 1]), junk=False, twin=True, wide=False)
+        proj, mem, b = gen_project(rnd, n_tags=4, programs=1 if failing else rnd.choice([0, 1]), junk=False, twin=True, wide=False)
         p2, m2 = redownload(proj, mem, rnd)
         reads = [R([("TwinTag", [])]), R([("TwinTag", []), ("a", [])]), R([("TwinTag", []), ("b", [])]), R([("TwinArr", [1]), ("n", [])]),
                  R([("PlainD", [])]), R([("TwinArr", [0])], count=2), R([("TwinTag", []), ("u", [])])]
@@ -361,6 +361,19 @@ def redownload_sessions(rnd, n, prefix="rd"):
                     "project": proj, "mem": mem,
                     "driver": {"kind": "logix", "path": "10.8.%d.%d" % (i % 200, rnd.randint(1, 250)), "route": [] if micro else [S.port_seg("bp", 0)],
                                "init_program_tags": True}, "calls": calls})
+        if failing:
+            # before the download, an upload that fails half-way (the last page of the symbol list, a program's, is refused
+            # after the controller scope and its structures were read): nothing of it may survive into the next upload
+            from .. import session
+            sc = out[-1]
+            sc["calls"] = [{"api": "open", "view": 1}, rd, {"api": "get_tag_list", "program": "*", "view": 1, "intent": {"allprogs": 1}}, env] + again + after + [{"api": "close"}]
+            k = 0
+            for e in session.run_scenario(dict(sc, calls=[{"api": "open"}, {"api": "close"}]))["events"]:
+                b = e.get("b")
+                if e["k"] == "tx" and b and b[0] == 0x70 and len(b) > 47 and b[46] == 0x55:
+                    k += 1
+            sc["target"]["pagefail"] = {str(2 * k): rnd.choice([2, 5, 0x10])}
+            sc["family"] += "-after-failed-upload"
     return out
 
 
